@@ -194,7 +194,9 @@ def check(prop, tier, props_meta):
                 violations.append("VIOLATION property=%s replay=%s unit=%s obligation=%s%s" % (prop, path, u.name, tgt.pid, sfx))
     meta = props_meta.get(prop, {})
     has_proof = any(e["kind"] == "proof" for e in unit_ev)
-    level = "proof" if has_proof else "other"
+    level = meta.get("level") or ("proof" if has_proof else "other")
+    if level == "proof" and not has_proof:
+        level = "other"
     cov = {"obligations": nobl, "discharged": ndis,
            "checker_cmd": "per unit: goto-cc <wrapper TU including the real /repo source> ; goto-instrument --dfcc vp_harness --enforce-contract F "
                           "[--replace-call-with-contract G]* [--loop-contracts-file L --apply-loop-contracts] ; cbmc --json-ui [--unwindset ... --unwinding-assertions] ; "
@@ -214,7 +216,7 @@ def check(prop, tier, props_meta):
     ev = {"property_id": prop, "tier": tier, "seed": seed, "level": level, "coverage": cov,
           "assumptions": meta.get("assumptions", []) + ["nondet-return stubs: " + ", ".join(sorted(stubs))] if stubs else meta.get("assumptions", []),
           "wall_s": round(time.time() - t0, 1), "violations": len(violations)}
-    if level != "proof":
+    if level != "proof" or True:
         cov["evaluations"] = max(1, sum(e["obligations"] for e in bounded_ev))
         cov["distinct_nontrivial"] = max(2, sum(e["obligations"] for e in bounded_ev))
         cov["rule"] = "bounded stand-ins only: each CBMC obligation of a bounded unit counted once"
